@@ -131,6 +131,9 @@ def _quiet(fn, *a, **k):
             return fn(*a, **k)
 
 
+LAST_DECOY = [False]
+
+
 def make_list(ctx, P_in, cs, sel=None, box=None, as_atom_array=False):
     """Construct the CellList.  P_in is the array handed over (float64/float32)."""
     ctx.op("CellList")
@@ -145,9 +148,17 @@ def make_list(ctx, P_in, cs, sel=None, box=None, as_atom_array=False):
         ctx.op("CellList.AtomArray")
         arr = struc.AtomArray(P_in.shape[0])
         arr.coord = P_in
+        LAST_DECOY[0] = False
         if box is not None:
             arr.box = box
             kw["periodic"] = True
+            if (ctx.index or 0) % 3 == 0:
+                # the structure carries another box than the one given with `box=`: the documented rule is that the
+                # keyword takes precedence over the box attribute
+                arr.box = (np.asarray(box, dtype=np.float64) * 1.37)[[1, 2, 0]]
+                kw["box"] = box
+                LAST_DECOY[0] = True
+                ctx.op("CellList.AtomArray_with_other_box")
         return _quiet(CellList, arr, cs, **kw), arr
     if box is not None:
         kw["periodic"] = True
@@ -912,7 +923,7 @@ def case_periodic(rng, ctx, triclinic):
     if built is None:
         return
     cl, arr = built
-    if arr is not None:
+    if arr is not None and not LAST_DECOY[0]:
         box_act = arr.box.astype(np.float64)
     w = World(P_act, cs, sel, box=box_act, box_is_f32=box_f32)
 
@@ -1003,7 +1014,7 @@ def case_adjacency(rng, ctx):
         if built is None:
             return
         cl, arr = built
-        if arr is not None and periodic:
+        if arr is not None and periodic and not LAST_DECOY[0]:
             box_act = arr.box.astype(np.float64)
         w = World(P_act, cs, sel, box=box_act, box_is_f32=(periodic and form == "atomarray"))
         mcl = 2 * ref.est_max_cell_length(stored, cs)
